@@ -200,6 +200,24 @@ fn main() {
             }
         }
     }
+    // EVERY argument length: a filler digit string of l digits for l = 1..=lmax with the point after the first / the
+    // second digit (x = 2.5.., 31.4..) and before all of them (0.7..), both signs: any estimate taken from the stored
+    // coefficient (its bit length, its f64 image, its word count) changes regime at lengths nobody wrote down
+    let lmax: usize = tier.pick(420, 1300);
+    run.bound("length_ladder", format!("every digit length 1..={} x (d.ddd, dd.ddd, 0.ddd) x both signs", lmax));
+    for l in 1..=lmax {
+        let digits = format!("2{}", &filler_digits(run.seed(), 7000, lmax)[..l - 1]);
+        let n = big(&digits);
+        let step = if l <= 130 || (290..=330).contains(&l) || l % 4 == 0 { 1 } else { 0 };
+        for (shift, every) in [(1i128, true), (2, step == 1), (0, step == 1)] {
+            if !every || l as i128 - shift < 0 {
+                continue;
+            }
+            let x = Dec { n: n.clone(), s: l as i128 - shift };
+            args.push(x.neg());
+            args.push(x);
+        }
+    }
     for s in [0i128, 7, -7] {
         args.push(Dec::new(0, s));
     }
